@@ -321,6 +321,22 @@ def check(prop, tier, seed):
                     extra_in.append(w)
         inputs.extend(extra_in)
         gen_stats.append({"name": "lifted_copies", "vectors": len(extra_in)})
+    if plan.get("rescale_every"):
+        # rescaled copies of  number x function  products (see exec.rs): number / 2^k, coefficients x 2^k, k = +-60
+        k, extra_in = 0, []
+        for v in inputs:
+            i = v.get("in", {})
+            if v.get("ev") == "arith" and i.get("op") == "mul" and "lift" not in i:
+                ks = (i["a"].get("k"), i.get("b", {}).get("k"))
+                if ks.count("num") == 1 and (set(ks) - {"num"}) <= {"lin", "quad", "poly", "func"}:
+                    k += 1
+                    if k % plan["rescale_every"] == 0:
+                        w = json.loads(json.dumps(v))
+                        w["in"]["rescale"] = 60 if (k // plan["rescale_every"]) % 2 else -60
+                        w["case"] = str(w.get("case", "")) + f"-rescale{w['in']['rescale']}"
+                        extra_in.append(w)
+        inputs.extend(extra_in)
+        gen_stats.append({"name": "rescaled_copies", "vectors": len(extra_in)})
     inp_path = os.path.join(wd, "inputs.ndjson")
     with open(inp_path, "w") as f:
         for v in inputs:
